@@ -8,7 +8,7 @@ pub fn prop() -> Prop {
     Prop {
         id: "C06",
         level: "model_checking",
-        rule: "clean streams of <=2 (thorough <=3) values over a 6-value core x 5 separator kinds (space, LF, tab, CRLF, touching) with k=0,1 (thorough 2) whitespace-delimited noise tokens (all 1- and 2-byte tokens over the 12 bytes } ] , : . e E + x * 0x80 0xff) in every gap (before/between/after) x 4 policies x 6 pipelines (none, select, sort, unique, group, take); 3-value streams with 1-byte tokens; non-trivial = k>=1 and a value follows the noise; distinct by construction",
+        rule: "clean streams of <=2 (thorough <=3) values over a 6-value core x 5 separator kinds (space, LF, tab, CRLF, touching) with k=0,1 (thorough 2) whitespace-delimited noise tokens (all 1- and 2-byte tokens over the 16 bytes } ] , : . e E + x * 0x80 0xff NUL and the UTF-8 lead bytes 0xc3 0xe2 0xf0 - so tokens ending in a truncated multi-byte character and complete 2-byte characters occur) in every gap (before/between/after) x 4 policies x 6 pipelines (none, select, sort, unique, group, take); 3-value streams with 1-byte tokens; non-trivial = k>=1 and a value follows the noise; distinct by construction",
         explanation: "differential against the run on the clean stream (and on the clean prefix for the panic policy), clause by clause as the property states; the reached-gap rule for --take follows the step-wise reference pipeline",
         assumptions: COMMON_ASSUMPTIONS.to_vec(),
         guards: vec!["noise-before-value", "panic-policy-prefix", "clean-crlf", "non-utf8-noise", "error-line-on-stdout", "error-line-on-stderr"],
@@ -21,7 +21,7 @@ pub fn prop() -> Prop {
 
 const CORE: [&str; 6] = ["null", "true", "12", "\"a\"", "[1,\"b\"]", "{\"a\":{}}"];
 const SEPS: [(&str, &str); 5] = [("space", " "), ("lf", "\n"), ("tab", "\t"), ("crlf", "\r\n"), ("touch", "")];
-const NOISE: [u8; 12] = [b'}', b']', b',', b':', b'.', b'e', b'E', b'+', b'x', b'*', 0x80, 0xff];
+const NOISE: [u8; 16] = [b'}', b']', b',', b':', b'.', b'e', b'E', b'+', b'x', b'*', 0x80, 0xff, 0x00, 0xc3, 0xe2, 0xf0];
 const POLICIES: [&str; 4] = ["ignore", "stdout", "stderr", "panic"];
 
 struct Pipe {
